@@ -22,7 +22,8 @@ def programs(tier):
     out = []
     out.append(("1F", prog(3, [fixed("a", 1)]), [["start", "a"], ["end", "a"]]))
     out.append(("1V", prog(2, [var("a", max_duration=2)]), [["start", "a"], ["dur", "a"], ["end", "a"]]))
-    out.append(("1Fo", prog(2, [fixed("a", 1, optional=True)]), []))
+    out.append(("1Fo", prog(2, [fixed("a", 1, optional=True)]), [["start", "a"]]))
+    out.append(("1Fo-tight", prog(2, [fixed("a", 2, optional=True)]), [["start", "a"], ["end", "a"]]))
     out.append(("1Fo-forced", prog(3, [fixed("a", 1, optional=True), con("OptionalTaskForceSchedule", "r", task=R("a"), to_be_scheduled=True)]), []))
     out.append(("2F", prog(3, [fixed("a", 1), fixed("b", 2)]), [["start", "a"], ["start", "b"], ["end", "b"]]))
     out.append(("2F+prec", prog(4, [fixed("a", 1), fixed("b", 2), con("TaskPrecedence", "c", task_before=R("a"), task_after=R("b"))]),
